@@ -522,7 +522,22 @@ func lockPairing(c *Ctx, sel func(fn *ssa.Function) bool) {
 		fkey := p.FuncKey(fn)
 		var bad []string
 		for _, ex := range fl.Exit {
-			extra := diffLS(ex.May, fl.Entry)
+			may := ex.May
+			if sum := lockSummary[fn]; len(sum) > 0 {
+				// a lock-acquiring wrapper hands these locks to its caller on every return; the
+				// caller's own exits are checked for them
+				if _, isRet := ex.At.(*ssa.Return); isRet {
+					may = may.clone()
+					for _, h := range sum {
+						for k, m := range may {
+							if m.Class == h.Class {
+								delete(may, k)
+							}
+						}
+					}
+				}
+			}
+			extra := diffLS(may, fl.Entry)
 			if len(extra) > 0 {
 				bad = append(bad, fmt.Sprintf("%s: exit with lock(s) still held on some path: %s", p.InstrPos(ex.At), strings.Join(extra, ", ")))
 			}
